@@ -5,6 +5,7 @@ from trie.exceptions import NodeOverrideError
 from ..bgen import BHistory, make_pool, make_values, probe_keys
 from ..bworld import BWorld, conflicts
 from ..core import Blob, Violation, deep, fresh, hx, unhx
+from ..simdb import STORE_FLAVOURS
 from ..models.binref import BLANK_HASH, RefBin, bits_of
 
 ID = "C12"
@@ -478,7 +479,7 @@ def generate(rng):
             if rng.random() < 0.75:
                 c["v"] = hx(rng.choice(values) or b"v")
             cmds.insert(rng.randrange(1, len(cmds) + 1), c)
-    return {"prop": ID, "cfg": {"probe": [hx(k) for k in probes[:40]], "store": rng.choice(["min", "min", "dict"])}, "cmds": cmds}
+    return {"prop": ID, "cfg": {"probe": [hx(k) for k in probes[:40]], "store": rng.choice(STORE_FLAVOURS)}, "cmds": cmds}
 
 
 def explore(rng, st):
